@@ -105,12 +105,22 @@ def run_part(ck):
     jobs = []
     nl3, nl4 = (150, 220) if ck.thorough else (26, 40)
     lays = T.gen_t3(rng, nl3, ck.thorough) + T.gen_t4(rng, nl4, ck.thorough)
-    # one ENDEF file larger than a 16 bit offset in P1-P2 can address
-    lays.append(T.L4(0x30, 6, 255, 255, 70000, T.rbytes(rng, 300, 1), b""))
+    # files around the 64 KiB limit of the 16 bit offset in P1-P2: extended control TLV (4 octet NLEN) with 65535,
+    # 65536, 65537.. octets, ordinary control TLV with the largest sizes its 2 octet field can announce
+    edge = [(6, 65536), (6, 70000), (4, 65535), (6, 65535), (6, 65537), (6, 65540), (4, 65534), (6, 131072)]
+    if not ck.thorough:
+        edge = edge[:3] + [rng.choice(edge[3:])]
+    for tag, mfs in edge:
+        ver = 0x30 if tag == 6 or rng.random() < 0.5 else 0x20
+        mle, mlc = rng.choice([(255, 255), (256, 255), (255, 254), (256, 253)])
+        oldlen = rng.choice([0, 300, min(mfs, 65536) - (tag - 2)])
+        lays.append(T.L4(ver, tag, mle, mlc, mfs, T.rbytes(rng, oldlen, 1), b""))
     for lay in lays:
         ls = T.lengths(rng, lay.cap, 4 if ck.thorough else 2)
         if lay.cap > 5000:
-            ls = [0, 5, 65531, 65532, 65533, 66000] + ([lay.cap, lay.cap + 1] if ck.thorough else [])
+            rc = min(lay.mfs, 65536) - lay.nl     # what the 16 bit offset can reach
+            ls = sorted(set([0, rc - 1, rc, rc + 1] + ([5, lay.cap, lay.cap + 1, 66000] if ck.thorough else [])))
+            ck.count("t4: NDEF file of %s 65536 octets" % ("less than" if lay.mfs < 65536 else "exactly" if lay.mfs == 65536 else "more than"))
         for n in ls:
             data = T.rbytes(rng, n, 1) if rng.random() < 0.9 else bytes(n)
             sim = lay.sim()
@@ -143,51 +153,110 @@ def run_part(ck):
     emu_part(ck, model)
 
 
+EMU_THEOREMS = [
+    "NfcVerif.C01Emu.t3emu_link_roundtrip",
+    "NfcVerif.C01Emu.t3emu_write_is_plain_memory",
+    "NfcVerif.C01Emu.t3emu_read_is_plain_memory",
+]
+
+
+def emu_layouts(rng, thorough):
+    """(Nbr, Nbw, Nmaxb): every Nbr 1..15 and every Nbw 1..13 at least once (thorough: every pair), block stores
+    below and above 255 data blocks (2- and 3-octet block list elements, the boundary 255/256/257)"""
+    sizes = [1, 2, 5, 13, 40, 255, 256, 257, 300]
+    out = []
+    if thorough:
+        k = 0
+        for nbr in range(1, 16):
+            for nbw in range(1, 14):
+                out.append((nbr, nbw, sizes[k % len(sizes)] if k % 3 else rng.choice(sizes)))
+                k += 1
+    else:
+        nbrs = list(range(1, 16))
+        nbws = list(range(1, 14)) + [12, 13]
+        rng.shuffle(nbrs)
+        rng.shuffle(nbws)
+        big = [256, 257, 300, 255, 300, 256]
+        for k, (nbr, nbw) in enumerate(zip(nbrs, nbws)):
+            nmaxb = big[k] if k < len(big) else rng.choice(sizes[:6])
+            if nbr >= 13 or nbw >= 12:
+                nmaxb = max(nmaxb, 40)      # room for a command with the largest block counts
+            out.append((nbr, nbw, nmaxb))
+    return out
+
+
+def emu_lengths(rng, cap, nbr, nbw, thorough):
+    ls = {0, 1, 15, 16, 17, 16 * nbw - 1, 16 * nbw, 16 * nbw + 1, 16 * nbr, 16 * nbr + 1, 254, 255, 256,
+          4079, 4080, 4081, 4096, 4097, cap - 17, cap - 16, cap - 15, cap - 1, cap, cap + 1}
+    ls.add(rng.randrange(cap + 2))
+    ls = sorted(n for n in ls if 0 <= n <= cap + 1)
+    if not thorough and len(ls) > 9:
+        keep = {0, cap, cap + 1, ls[len(ls) // 2]}
+        keep |= {n for n in (16 * nbr, 16 * nbw + 1) if n <= cap}     # one full read / write batch
+        keep |= {n for n in ls if 4079 <= n <= 4097 and n % 16 <= 1}
+        ls = sorted(keep | set(rng.sample(ls, 3)))
+    return ls
+
+
 def emu_part(ck, model):
-    """real Type3Tag <-> in-memory exchange <-> real Type3TagEmulation.process_command"""
+    """real Type3Tag <-> in-memory exchange <-> real Type3TagEmulation.process_command, and the same composition
+    in the model (NfcVerif.T3Link, driver drv_c01)"""
     rng = ck.rng
-    n_lay = 60 if ck.thorough else 12
-    for _ in range(n_lay):
-        nbr, nbw = rng.randrange(1, 16), rng.randrange(1, 14)
-        nmaxb = rng.choice([1, 2, 5, 13, 40, 255, 256, 300])
-        if nbw == 13 and nmaxb > 255:
-            nbw = 12
+    from sims.t34_sims import IDM, PMM
+    ck.lean("NfcVerif.Props.C01Emu", EMU_THEOREMS)
+    if ck.thorough:
+        ck.leanchecker(["NfcVerif.Props.C01Emu"])
+    link_model = Model("drv_c01")
+    ids = hx(IDM + PMM + b"\x12\xFC")
+    jobs = []
+    for nbr, nbw, nmaxb in emu_layouts(rng, ck.thorough):
         cap = nmaxb * 16
-        old = T.rbytes(rng, rng.choice([0, cap, rng.randrange(cap + 1)]), 1)
+        old = T.rbytes(rng, rng.choice([0, cap, rng.randrange(cap + 1), min(cap, 16 * nbr)]), 1)
         store = bytearray(T.rbytes(rng, 16 * (nmaxb + 1), 1))
         store[0:16] = t3_attr(0x10, nbr, nbw, nmaxb, 0, 1, len(old))
         store[16:16 + len(old)] = old
-        for n in T.lengths(rng, cap, 1):
+        f37 = nbw == 13 and nmaxb > 255
+        for n in emu_lengths(rng, cap, nbr, nbw, ck.thorough):
             data = T.rbytes(rng, n, 1)
             link = EmuLink(store)
             replay = {"emulated": True, "nbr": nbr, "nbw": nbw, "nmaxb": nmaxb, "old_len": len(old), "data": data.hex()}
+            ck.case(("emu", nbr, nbw, nmaxb, len(old), data), 0 < n <= cap, "t3emu:%s" % ("3-octet-elements" if nmaxb > 255 else "2-octet-elements"))
             try:
                 nd = link.activate().ndef
+                seen = None if nd is None else (bytes(nd.octets), nd.capacity)
             except Exception as e:  # noqa
-                ck.fail("t3emu-activation-raises", exc_name(e), replay)
+                ck.fail("t3emu-activation-raises", T.xname(e), replay)
                 continue
-            if nd is None or bytes(nd.octets) != old or nd.capacity != cap:
-                ck.fail("t3emu-wellformed-layout-not-ndef", "emulated tag not read correctly", replay)
+            if seen != (old, cap):
+                ck.fail("t3emu-wellformed-layout-not-ndef", "emulated tag not read correctly: %s" % (seen and (len(seen[0]), seen[1]),), replay)
                 continue
             nframes = len(link.frames)
             try:
                 nd.octets = data
                 res = "ok"
             except Exception as e:  # noqa
-                res = "exc " + exc_name(e)
+                res = "exc " + T.xname(e)
+            nwrites = len(link.writes)
+            after = bytes(link.store)
+            jobs.append(("lnk.set %s %s %s" % (ids, hx(store), hx(data)),
+                         "%s frames=%d store=%s" % ("fail" if res.startswith("exc TagCommandError") else res, nwrites, hx(after)),
+                         replay))
             if n > cap:
                 if res != "exc ValueError" or len(link.frames) != nframes:
                     ck.fail("t3emu-oversize-not-rejected", "%s, %d commands" % (res, len(link.frames) - nframes), replay)
-            elif res != "ok":
-                ck.fail("t3emu-write-raises", res, replay)
-            else:
-                l2 = EmuLink(link.store)
-                line, _ = T.see(l2)
-                if line != "ok cap=%d r=1 w=1 data=%s" % (cap, hx(data)):
-                    ck.fail("t3emu-roundtrip-differs", "wrote %d octets, fresh reader sees %s" % (n, line[:100]), replay)
-                if len(link.store) != len(store) or (n <= cap and bytes(link.store[16 + 16 * ((n + 15) // 16):]) != bytes(store[16 + 16 * ((n + 15) // 16):])):
-                    ck.fail("t3emu-store-damaged", "block store changed outside the written blocks", replay)
-            ck.case(("emu", nbr, nbw, nmaxb, len(old), data), 0 < n <= cap, "t3emu")
+                continue
+            if res != "ok":
+                key = "t3-nbw13-3byte-blocklist-valueerror" if (f37 and res == "exc ValueError") else "t3emu-write-raises"
+                ck.fail(key, "write of %d octets (capacity %d) ended %s on emulated ('t3', %d, %d, %d)" % (n, cap, res, nbr, nbw, nmaxb), replay)
+                continue
+            line, _ = T.see(EmuLink(after))
+            jobs.append(("lnk.see %s %s" % (ids, hx(after)), line, replay))
+            if line != "ok cap=%d r=1 w=1 data=%s" % (cap, hx(data)):
+                ck.fail("t3emu-roundtrip-differs", "wrote %d octets, fresh reader sees %s" % (n, line[:100]), replay)
+            keep_from = 16 + 16 * ((n + 15) // 16)
+            if len(after) != len(store) or after[keep_from:] != bytes(store[keep_from:]):
+                ck.fail("t3emu-store-damaged", "block store changed outside the written blocks", replay)
+    T.compare(ck, link_model, jobs, "t3emu-reader-over-emulation-model-vs-nfcpy")
     if HAVE_EMU_MODEL:
         emu_tie(ck, model)
 
